@@ -404,6 +404,8 @@ def run(tier):
     from . import c01
     c01.sha256(prog, rep)
     c01.k2_k3_k6(prog, rep)
+    c01.k7_regions(prog, rep)       # scratch regions handed to the HMAC helpers are large enough and disjoint (long keys)
+    c01.k10_encap(prog, rep)
     c01.ctx_typestate(prog, rep, [UNIT, "alg/sha256.c"])
     # a signing function that cannot allocate must fail, not return success with the signature buffer unwritten (rule shared with C14)
     from . import c14
